@@ -34,6 +34,10 @@ func (o opSpec) String() string {
 		return fmt.Sprintf("Add(%s,%s)", p, o.val)
 	case "del":
 		return fmt.Sprintf("Del(%s)", p)
+	case "delcond":
+		return fmt.Sprintf("DeleteConditional(%s, value==%s)", p, o.val)
+	case "walkdel":
+		return fmt.Sprintf("WalkDeleted(%s, value==%s)", p, o.val)
 	case "get":
 		return fmt.Sprintf("Get(%s)", p)
 	case "query":
@@ -107,7 +111,7 @@ type cfgData struct {
 func readOnly(p []opSpec) bool {
 	for _, o := range p {
 		switch o.kind {
-		case "add", "del", "hupd":
+		case "add", "del", "hupd", "delcond", "walkdel":
 			return false
 		}
 	}
@@ -249,7 +253,31 @@ func (harness) Configs(tier string) []xplore.Config {
 			}
 		}
 	}
+	// conditional deletes (what the cache's timestamped delete is built on):
+	// DeleteConditional / WalkDeleted over two leaves of which one satisfies the
+	// condition, against a goroutine that - in program order - makes the other
+	// leaf satisfy it and then the first one stop satisfying it (both visiting
+	// orders), and against queries, adds and plain deletes. Some leaf satisfies
+	// the condition at every instant: an atomic delete removes (and returns) one.
+	for _, k := range []string{"delcond", "walkdel"} {
+		for _, dp := range [][]string{{"a"}, {"*"}, {"a", "*"}} {
+			cd := opSpec{k, dp, "v1"}
+			add([]string{"a/b", "a/c=v1"}, [][]opSpec{{cd}, {{"add", ab, "v1"}, {"add", ac, "v2"}}}, 3)
+			add([]string{"a/b=v1", "a/c"}, [][]opSpec{{cd}, {{"add", ac, "v1"}, {"add", ab, "v2"}}}, 3)
+			add([]string{"a/b", "a/c=v1"}, [][]opSpec{{cd}, {{"add", ab, "v1"}}, {{"add", ac, "v2"}}}, 3)
+			add([]string{"a/b", "a/c=v1"}, [][]opSpec{{cd}, {{"query", []string{"a", "*"}, ""}}, {{"add", ab, "v1"}}}, 3)
+			add([]string{"a/b", "a/c=v1"}, [][]opSpec{{cd, {"get", ac, ""}}, {{"add", ac, "v1"}, {"del", ab, ""}}}, 3)
+			add([]string{"a/b=v1", "a/c=v1"}, [][]opSpec{{cd}, {cd}, {{"add", ab, "v1"}}}, 3)
+		}
+	}
 	return out
+}
+
+func initKV(e string) (string, string) {
+	if i := strings.Index(e, "="); i >= 0 {
+		return e[:i], e[i+1:]
+	}
+	return e, "v0"
 }
 
 // ---- model ----
@@ -473,6 +501,31 @@ func lops(rs []rec) []hutil.LOp {
 				n.observe()
 				return []hutil.State{n}
 			}})
+		case "delcond", "walkdel":
+			out = append(out, hutil.LOp{Inv: r.inv, Ret: r.ret, Thread: r.thread, Name: fmt.Sprintf("%s=%v", r.spec, r.deleted), Step: func(s hutil.State) []hutil.State {
+				m := s.(*mst)
+				var want, keys []string
+				for lk, id := range m.tree {
+					if matches(r.spec.path, split(lk)) && m.val[id] == r.spec.val {
+						keys = append(keys, lk)
+						if r.spec.kind == "walkdel" {
+							want = append(want, m.val[id]) // WalkDeleted hands the removed VALUES to its callback
+						} else {
+							want = append(want, lk)
+						}
+					}
+				}
+				sort.Strings(want)
+				if fmt.Sprintf("%q", want) != fmt.Sprintf("%q", r.deleted) {
+					return nil
+				}
+				n := m.clone()
+				for _, k := range keys {
+					delete(n.tree, k)
+				}
+				n.observe()
+				return []hutil.State{n}
+			}})
 		case "get":
 			// two atomic steps in program order: fetch the node, read its value
 			out = append(out, hutil.LOp{Inv: r.inv, Ret: r.mid, Thread: r.thread, Name: fmt.Sprintf("%s=found:%v", r.spec, r.found), Step: func(s hutil.State) []hutil.State {
@@ -586,18 +639,20 @@ func (harness) Run(cfg xplore.Config, ch vrt.Chooser, trace bool) (xplore.Outcom
 	res := vrt.Run(ch, vrt.Options{Trace: trace, FreeSwitch: true}, func() {
 		t := &ctree.Tree{}
 		init := &mst{tree: map[string]int{}, val: map[int]string{}, handles: map[int]int{}, q: map[int]*qacc{}}
-		for _, p := range d.init {
-			if err := t.Add(split(p), "v0"); err != nil {
+		for _, e := range d.init {
+			p, v := initKV(e)
+			if err := t.Add(split(p), v); err != nil {
 				panic(err)
 			}
 			init.next++
 			init.tree[p] = init.next
-			init.val[init.next] = "v0"
+			init.val[init.next] = v
 		}
 		var h *ctree.Leaf
 		if len(d.init) > 0 {
-			h = t.GetLeaf(split(d.init[0]))
-			init.handles[0] = init.tree[d.init[0]]
+			p0, _ := initKV(d.init[0])
+			h = t.GetLeaf(split(p0))
+			init.handles[0] = init.tree[p0]
 		}
 		logs := make([][]rec, len(d.progs))
 		for ti, prog := range d.progs {
@@ -613,6 +668,16 @@ func (harness) Run(cfg xplore.Config, ch vrt.Chooser, trace bool) (xplore.Outcom
 						for _, p := range t.Delete(o.path) {
 							r.deleted = append(r.deleted, strings.Join(p, "/"))
 						}
+						sort.Strings(r.deleted)
+					case "delcond":
+						want := o.val
+						for _, p := range t.DeleteConditional(o.path, func(v interface{}) bool { return fmt.Sprint(v) == want }) {
+							r.deleted = append(r.deleted, strings.Join(p, "/"))
+						}
+						sort.Strings(r.deleted)
+					case "walkdel":
+						want := o.val
+						t.WalkDeleted(o.path, func(v interface{}) bool { return fmt.Sprint(v) == want }, func(v interface{}) { r.deleted = append(r.deleted, fmt.Sprint(v)) })
 						sort.Strings(r.deleted)
 					case "get":
 						n := t.Get(o.path)
